@@ -61,7 +61,7 @@ type Case struct {
 
 var addrs = []string{"reg.example.com", "localhost:5000", "legacy.io"}
 var otherKeys = []string{"other.example.org", "https://index.docker.io/v1/", "https://legacy.io/v1/", "http://legacy.io", "10.0.0.1:443"}
-var fieldVals = []string{"", "alice", "p@ss:w:rd", "with space", `q"uo'te`, "<>& ", "пароль-密码-🔑", strings.Repeat("k", 4096), "a\\b\tc"}
+var fieldVals = []string{"", "alice", "p@ss:w:rd", "with space", `q"uo'te`, "<>& ", "пароль-密码-🔑", strings.Repeat("k", 4096), "a\\b\tc", "\x00lead", "trail\x00", "\x00", "mid\x00dle"}
 var userVals = []string{"", "alice", "bob smith", `q"uo`, "ユーザー", "colon:name"}
 
 func genCred(t *rapid.T, label string) Cred {
@@ -558,6 +558,10 @@ func runConc(c ConcCase) (res vt.Result, fail *vt.Fail) {
 		}
 		fs2, _ := credentials.NewFileStore(path)
 		got, _ := fs2.Get(ctx, addr)
+		// the store the callers shared answers like one that reads the file afresh
+		if liveGot, lerr := fs.Get(ctx, addr); lerr != nil || liveGot != got {
+			return res, vt.Failf("C18/store-and-file-disagree", "after the concurrent calls returned, Get(%s) on the shared store = {%q %q} (err %v), a store opened on the same file = {%q %q}", addr, liveGot.Username, trunc(liveGot.Password), lerr, got.Username, trunc(got.Password))
+		}
 		_, exact := aa[addr]
 		if len(cands) == 0 {
 			if sc, ok := seed[addr]; ok && got != credOf(sc) {
@@ -731,6 +735,29 @@ func runCrash(c CrashCase, child string) (res vt.Result, fail *vt.Fail) {
 		if rerr == nil {
 			if _, err := parseDoc(got); err != nil {
 				return res, vt.Failf("C18/crash-unparsable", "killed before syscall %d/%d: %v", k+1, len(pts), err)
+			}
+		}
+		// life goes on after the crash: whatever the dead process left in the directory,
+		// the next save (a Put of a very short credential: the document is shorter than
+		// the one the dead process was writing) yields a complete file
+		{
+			follow := &crash.Script{Kind: "cred", Dir: path, Marker: filepath.Join(root, "MARK2"), Op: crash.Op{Op: "put", Ref: addrs[c.Step.Addr], User: "a"}}
+			os.Remove(filepath.Join(root, "MARK2"))
+			if err := r.RunPlain("run", follow); err == nil {
+				after, aerr := os.ReadFile(path)
+				if aerr == nil && !json.Valid(after) {
+					return res, vt.Failf("C18/file-damaged-after-crash-and-next-save", "killed before syscall %d/%d (%s), then a Put by a new process: the config file (%d bytes) is not one complete JSON document any more", k+1, len(pts), pt.Line, len(after))
+				}
+				if aerr == nil {
+					if doc2, perr := parseDoc(after); perr == nil {
+						if a, ok := doc2["auths"].(map[string]any); ok {
+							if _, there := a[addrs[c.Step.Addr]]; !there {
+								return res, vt.Failf("C18/put-after-crash-ineffective", "killed before syscall %d/%d, then Put(%s) by a new process returned nil but the entry is not in the file", k+1, len(pts), addrs[c.Step.Addr])
+							}
+						}
+					}
+				}
+				res.Classes = append(res.Classes, "next-save-after-crash-checked")
 			}
 		}
 	}
